@@ -227,6 +227,7 @@ pub fn harnesses(thorough: bool) -> Vec<Harness> {
         }
     }
     let three: Vec<(&'static str, Vec<Vec<Op>>)> = vec![
+        ("P|P|PB", vec![vec![ap(140)], vec![ap(150)], vec![Op::Batch { t: 0, lens: vec![151, 152] }]]),
         ("P|C|C", vec![vec![ap(140)], vec![rn.clone()], vec![rn.clone()]]),
         ("Prot|C|CB", vec![vec![ap(h)], vec![rn.clone()], vec![br(usize::MAX)]]),
         ("P|P|C", vec![vec![ap(140)], vec![ap(150)], vec![rn.clone(), rn.clone()]]),
